@@ -11,6 +11,7 @@ import Hg.Proofs.HistoryLaws
 import Hg.Proofs.CodecLaws
 import Hg.Proofs.InvImmut
 import Hg.Proofs.InvNp
+import Hg.Proofs.HistoryReload
 import Hg.Props.Examples
 
 namespace Hg.C05
@@ -69,6 +70,17 @@ theorem inv_fillNp (t : Agg) (rows : List Datum) (ws : List Val)
     (hq : qtysOk t rows = true) (hi : inv t = true) :
     ∃ a, fillNp t rows ws = some a ∧ inv a = true :=
   Hg.inv_fillNp t rows ws hlen hw hrun ht hs hq hi
+
+/-- **histories continue after a JSON round trip**: after any admissible live history `ops1` the whole pool is reloaded
+from its documents (`immut`, which is what `decode ∘ encode` yields: C04 `history_roundtrip`); any history `ops2` of
+`+`, `+=`, `*`, `zero()`, `copy()` on the reloaded pool (a reloaded aggregator cannot be filled) again leaves every
+aggregator with the invariants, well-formed — the reloaded pool behaves exactly like the live one -/
+theorem history_reload (z : Agg) (ops1 ops2 : List HOp)
+    (hz : isZeroTree z = true) (hg : good z = true) (ht : hasTmpl z = true) (hu : uniformT z = true)
+    (hok : okRun [z] ops1 = true) (hgf : goodFills [z] ops1 = true)
+    (hnf : ops2.all HOp.noFill = true) (hok2 : okRun ((runH z ops1).map immut) ops2 = true) :
+    ∀ a ∈ ops2.foldl stepH ((runH z ops1).map immut), inv a = true ∧ good a = true :=
+  Hg.history_reload z ops1 ops2 hz hg ht hu hok hgf hnf hok2
 
 /-- **JSON round trip**: the aggregator loaded from the document of a state that satisfies the invariants
 satisfies them too (and is well-formed); `inv_immut`: the invariants do not depend on whether the quantities are live -/
